@@ -783,6 +783,23 @@ def r_edgedata(ctx) -> RuleResult:
                 or (isinstance(x, ast.Subscript) and isinstance(x.value, ast.Attribute) and x.value.attr == "edges" and isinstance(x.ctx, ast.Store))
                 or (isinstance(x, ast.Call) and isinstance(x.func, ast.Attribute) and x.func.attr == "update" and isinstance(x.func.value, ast.Subscript)
                     and isinstance(x.func.value.value, ast.Attribute) and x.func.value.value.attr == "edges")]
+    # a loop over all bonds of the input with their data that updates the corresponding bond of another graph gives
+    # every bond its data back
+    complete = False
+    for f2 in clo:
+        for lp in own_walk(f2.node):
+            if isinstance(lp, ast.For) and isinstance(lp.target, ast.Tuple) and len(lp.target.elts) == 3 and isinstance(lp.target.elts[2], ast.Name) \
+                    and ("data=True" in norm(lp.iter) or ".data(" in norm(lp.iter)) and ".edges" in norm(lp.iter):
+                d_ = lp.target.elts[2].id
+                for x in ast.walk(ast.Module(lp.body, [])):
+                    if isinstance(x, ast.Call) and isinstance(x.func, ast.Attribute) and x.func.attr == "update" and isinstance(x.func.value, ast.Subscript) \
+                            and isinstance(x.func.value.value, ast.Attribute) and x.func.value.value.attr == "edges" and any(isinstance(a, ast.Name) and a.id == d_ for a in x.args) \
+                            and not any(isinstance(y, (ast.If, ast.Break, ast.Continue)) for y in ast.walk(ast.Module(lp.body, []))):
+                        complete = True
+    if without is not None and complete:
+        res.inst(f.fq, f"`{short(without, 50)}` adds the bonds bare; a loop over all bonds of the input writes their data back", "ok")
+        res.counts = {"rebuilt": 1}
+        return res
     if without is not None and restored:
         raise AnalysisError(f"R-EDGEDATA: `{short(without, 50)}` adds the bonds without their data and `{short(restored[0], 50)}` writes bond data later; whether that restores all of it is beyond this analysis")
     ok = without is None
